@@ -65,7 +65,7 @@ def run(out, tier, seed, model_ok):
         if rng.random() < 0.3:
             c["options"]["idPrefix"] = rng.choice(["<", "\"x", "a&b", "&lt;", "p q", "é"])
         if rng.random() < 0.15:
-            c["options"]["imageConv"] = {"kind": "fixed", "attrs": [["src", rng.choice(["x.png", "\"><img>", "a&b"])], ["title", rng.choice(["<t>", "&amp;", "ok"])]], "open": False}
+            c["options"]["imageConv"] = {"kind": "fixed", "attrs": [["src", rng.choice(["x.png", "\"><img>", "a&b", "data:image/png;base64,\"<&"])], ["title", rng.choice(["<t>", "&amp;", "ok"])]], "open": False}
     run_ = A.ApiRun(out, "C02", model_ok, project, observers=[well_formed], name="wellformed")
     run_.run(cs, nontrivial=lambda c, r: any(ch in r.get("value", "") for ch in ("&lt;", "&quot;", "&amp;")))
     # substitution half (metamorphic, real code only): distinct non-empty strings for distinct originals
